@@ -37,6 +37,8 @@ type Spec struct {
 	// Post runs once in the orchestrator after the workers (extra stages such
 	// as the real binary); it may add violations and coverage.
 	Post func(seed uint64, tier string, cov *Cov) ([]*Violation, map[string]any, error)
+	// Posts: further stages, run after Post.
+	Posts []func(seed uint64, tier string, cov *Cov) ([]*Violation, map[string]any, error)
 }
 
 // Registry lists the decided properties of this binary.
